@@ -77,6 +77,9 @@ type run struct {
 	tnames   *typeNames // lazily built reverse map for DOT node names
 	fns      map[int]*fnState
 	userErrs map[[2]int]*UserErr
+	// lastNil: the execution that last returned the typed nil error (a failure ends the resolution, so within one
+	// operation it is the only one)
+	lastNil [2]int
 
 	container *dig.Container
 	scopes    []scope
